@@ -1842,25 +1842,77 @@ func (db *DB) StmtReadOnly(sql string) (bool, error) {
 }
 
 // StmtReadOnlyWithConn returns whether the given SQL statement is read-only, using
-// the given connection.
+// the given connection. If the text contains more than one statement it is
+// read-only only if every statement in it is read-only.
 func (db *DB) StmtReadOnlyWithConn(sql string, conn *sql.Conn) (bool, error) {
-	var readOnly bool
+	readOnly := true
 	f := func(driverConn any) error {
 		c := driverConn.(*sqlite3.SQLiteConn)
-		drvStmt, err := c.Prepare(sql)
-		if err != nil {
-			return err
+		for rest, first := sql, true; ; first = false {
+			// Prepare compiles only the first statement of the text.
+			drvStmt, err := c.Prepare(rest)
+			if err != nil {
+				if first {
+					return err
+				}
+				// Let the execute path report the error.
+				readOnly = false
+				return nil
+			}
+			ro := drvStmt.(*sqlite3.SQLiteStmt).Readonly()
+			drvStmt.Close()
+			if !ro {
+				readOnly = false
+				return nil
+			}
+			var more bool
+			rest, more = afterFirstStatement(rest)
+			if !more {
+				return nil
+			}
 		}
-		defer drvStmt.Close()
-		sqliteStmt := drvStmt.(*sqlite3.SQLiteStmt)
-		readOnly = sqliteStmt.Readonly()
-		return nil
 	}
 
 	if err := conn.Raw(f); err != nil {
 		return false, err
 	}
 	return readOnly, nil
+}
+
+// afterFirstStatement returns the text following the first semicolon that
+// terminates a statement in sql, and whether there is any such text. Semicolons
+// inside string literals, quoted identifiers and comments are ignored. It must
+// only be used when the first statement is not a CREATE TRIGGER statement.
+func afterFirstStatement(sql string) (string, bool) {
+	for i := 0; i < len(sql); i++ {
+		switch c := sql[i]; {
+		case c == ';':
+			return sql[i+1:], strings.TrimSpace(sql[i+1:]) != ""
+		case c == '\'' || c == '"' || c == '`':
+			for i++; i < len(sql); i++ {
+				if sql[i] == c {
+					if i+1 < len(sql) && sql[i+1] == c {
+						i++
+						continue
+					}
+					break
+				}
+			}
+		case c == '[':
+			for i++; i < len(sql) && sql[i] != ']'; i++ {
+			}
+		case c == '-' && i+1 < len(sql) && sql[i+1] == '-':
+			for i++; i < len(sql) && sql[i] != '\n'; i++ {
+			}
+		case c == '/' && i+1 < len(sql) && sql[i+1] == '*':
+			end := strings.Index(sql[i+2:], "*/")
+			if end < 0 {
+				return "", false
+			}
+			i += end + 3
+		}
+	}
+	return "", false
 }
 
 func (db *DB) pragmas() (map[string]any, error) {
